@@ -243,6 +243,7 @@ class ReaderHarness(object):
             if R.content_fn is None:
                 raise AnalysisError('content-reading function not identified')
             I.stubs[R.content_fn.qualname] = content_stub
+        I.stubs.update(getattr(self, 'extra_stubs', {}))
         return I
 
     def make_reader(self, I):
